@@ -645,6 +645,53 @@ pub fn run(ctx: &mut Ctx, dom: &str, a: &[Arg]) {
                 getters(ctx, &g, &bi);
             }
         }
+        "elfname" => {
+            // elfname <region> <ext base> <ext bytes>: the string table lives in external memory at a fixed address
+            let _ext = match Guarded::fixed(a[1].n() as usize, a[2].b()) {
+                Some(e) => e,
+                None => {
+                    ctx.out.push("SKIP".into());
+                    return;
+                }
+            };
+            let g = Guarded::new(a[0].b(), 0, ctx.place_end);
+            if let Some(bi) = load(ctx, &g) {
+                match guard(|| bi.elf_sections_tag()) {
+                    Err(()) => ctx.ln("elfname_sections", "get PANIC"),
+                    Ok(None) => ctx.ln("elfname_sections", "none"),
+                    Ok(Some(t)) => match guard(|| t.sections()) {
+                        Err(()) => ctx.ln("elfname_sections", "PANIC"),
+                        Ok(mut it) => {
+                            ctx.ln("elfname_sections", "VAL ");
+                            let total = it.len();
+                            let table = g.off(t as *const ElfSectionsTag) + 20;
+                            let es = t.entry_size() as isize;
+                            loop {
+                                match guard(|| it.next()) {
+                                    Ok(Some(s)) => {
+                                        let k = (total - it.len() - 1) as isize;
+                                        let nm = match guard(|| s.name().map(|x| x.as_bytes().to_vec())) {
+                                            Ok(Ok(b)) => format!("VAL {}", hexs(&b)),
+                                            Ok(Err(_)) => "ERR Utf8".to_string(),
+                                            Err(()) => "PANIC".to_string(),
+                                        };
+                                        ctx.ln("elfname", format!("{} {}", table + k * es, nm));
+                                    }
+                                    Ok(None) => {
+                                        ctx.ln("elfname_end", "VAL ");
+                                        break;
+                                    }
+                                    Err(()) => {
+                                        ctx.ln("elfname_end", "PANIC");
+                                        break;
+                                    }
+                                }
+                            }
+                        }
+                    },
+                }
+            }
+        }
         "mbinull" => {
             let r = guard(|| unsafe { BootInformation::load(core::ptr::null()) });
             ctx.ln(
